@@ -95,15 +95,61 @@ class Experiment(object):
         seam.close_leaked()
         return out
 
-    def beads(self, table=None):
+    def beads(self, table=None, fresh=False):
         t = self.beads_t if table is None else table
-        return self.call(self.X.process_beads_table, t, self.inst_t, base_dir=self.base_dir, full_output=True,
+        inst_t = self.inst_t
+        if fresh:
+            # reference (single-row) runs read tables rebuilt from the experiment description, so that nothing the
+            # batch may have written into its input tables reaches them
+            inst_t, b0, _ = expgen.tables(self.exp)
+            t = b0.loc[list(t.index)]
+        return self.call(self.X.process_beads_table, t, inst_t, base_dir=self.base_dir, full_output=True,
                          get_transform_fxn_kwargs={'clustering_fxn': self.clustering()})
 
-    def samples(self, fx, beads_t, table=None):
+    def samples(self, fx, beads_t, table=None, fresh=False):
         t = self.samples_t if table is None else table
-        return self.call(self.X.process_samples_table, t, self.inst_t, mef_transform_fxns=fx, beads_table=beads_t,
+        inst_t = self.inst_t
+        if fresh:
+            inst_t, _, s0 = expgen.tables(self.exp)
+            t = s0.loc[list(t.index)]
+            beads_t = beads_t.copy(deep=True)
+        return self.call(self.X.process_samples_table, t, inst_t, mef_transform_fxns=fx, beads_table=beads_t,
                          base_dir=self.base_dir)
+
+
+def in_forked_child(fn):
+    """Runs fn() in a child forked from the current process state and returns its (picklable) result. Reference
+    computations run this way so that they neither see nor leave process-level state (module caches, memoised
+    parameters) shared with the workflow run they are compared with."""
+    import os
+    import pickle
+    r, w = os.pipe()
+    pid = os.fork()
+    if pid == 0:
+        code = 0
+        try:
+            os.close(r)
+            try:
+                res = ('ok', fn())
+            except BaseException as e:            # noqa: B902 - everything must travel back
+                res = ('exc', '%s: %s' % (type(e).__name__, e))
+            try:
+                blob = pickle.dumps(res, protocol=4)
+            except Exception as e:
+                blob = pickle.dumps(('exc', 'result not picklable: %s' % e), protocol=4)
+            with os.fdopen(w, 'wb') as f:
+                f.write(blob)
+        except BaseException:
+            code = 3
+        finally:
+            os._exit(code)
+    os.close(w)
+    with os.fdopen(r, 'rb') as f:
+        blob = f.read()
+    os.waitpid(pid, 0)
+    if not blob:
+        raise RuntimeError('reference child died without an answer')
+    return pickle.loads(blob)
 
 
 def stat_equal(a, b):
@@ -253,7 +299,7 @@ class C11Machine(_BatchBase):
             if kb == 'exc':
                 culprit = 'unknown'
                 for b in exp['beads']:
-                    k1, r1 = E.beads(E.beads_t.loc[[b['ID']]])
+                    k1, r1 = E.beads(E.beads_t.loc[[b['ID']]], fresh=True)
                     if k1 == 'exc' and type(r1) is type(rb):
                         culprit = b['fault'] or 'healthy-row'
                         break
@@ -276,7 +322,7 @@ class C11Machine(_BatchBase):
                                        'bead row %s with fault %s did not record an error' % (b['ID'], b['fault'])))
                 if not b['fault'] and is_err:
                     # not a documented fault: only demand the same outcome as in the single-row run
-                    k1, r1 = E.beads(E.beads_t.loc[[b['ID']]])
+                    k1, r1 = E.beads(E.beads_t.loc[[b['ID']]], fresh=True)
                     if k1 == 'exc' or not isinstance(r1[0][b['ID']], X.ExcelUIException) or str(r1[0][b['ID']]) != str(r):
                         V.append(violation('C11/row-differs-from-alone', 'beads/error-vs-result',
                                            'bead row %s: batch gives %r, alone %r' % (b['ID'], r, r1)))
@@ -288,7 +334,7 @@ class C11Machine(_BatchBase):
             for b in exp['beads']:
                 if b['fault'] or len(exp['beads']) < 2 or isinstance(bsamples.get(b['ID']), X.ExcelUIException):
                     continue
-                k1, r1 = E.beads(E.beads_t.loc[[b['ID']]])
+                k1, r1 = E.beads(E.beads_t.loc[[b['ID']]], fresh=True)
                 out['evals'] += 1
                 if k1 == 'exc' or sample_digest(r1[0][b['ID']]) != sample_digest(bsamples[b['ID']]):
                     V.append(violation('C11/row-differs-from-alone', 'beads',
@@ -319,15 +365,37 @@ class C11Machine(_BatchBase):
             except Exception:
                 fx0 = None
                 bump(out['probes'], 'calibration_functions_not_copyable')
+            beads_t0 = beads_t.copy(deep=True)
 
             def fresh_fx():
                 return copy.deepcopy(fx0) if fx0 is not None else fx
+
+            # isolation references: every row without a documented fault is processed alone in its own child process,
+            # forked HERE - before the batch runs - so that each single-row run starts from the process state the batch
+            # starts from and shares nothing with it or with the other single-row runs
+            def alone_run(sid):
+                k1, r1 = E.samples(fresh_fx(), beads_t0, E.samples_t.loc[[sid]], fresh=True)
+                if k1 == 'exc':
+                    return ('aborts', repr(r1)[:300])
+                a1 = r1.get(sid)
+                if isinstance(a1, X.ExcelUIException):
+                    return ('rowerr', str(a1))
+                st1 = expgen.tables(exp)[2].loc[[sid]].copy()
+                k2, r2 = E.call(X.add_samples_stats, st1, {sid: a1})
+                stats = ('exc', str(r2)[:200]) if k2 == 'exc' else ('ok', {c: st1.loc[sid, c] for c in st1.columns})
+                return ('ok', fpm.sample_state(a1), stats)
+            alone_res = {}
+            for s in exp['samples']:
+                if not s['fault']:
+                    kk, rr = in_forked_child(lambda sid=s['ID']: alone_run(sid))
+                    alone_res[s['ID']] = rr if kk == 'ok' else ('aborts', rr)
+                    out['evals'] += 1
             k, r = E.samples(fx, beads_t)
             out['evals'] += 1
             if k == 'exc':
                 culprit = 'unknown'
                 for s in exp['samples']:
-                    k1, r1 = E.samples(fresh_fx(), beads_t, E.samples_t.loc[[s['ID']]])
+                    k1, r1 = E.samples(fresh_fx(), beads_t0, E.samples_t.loc[[s['ID']]], fresh=True)
                     if k1 == 'exc' and type(r1) is type(r):
                         culprit = s['fault'] or 'healthy-row'
                         break
@@ -352,25 +420,23 @@ class C11Machine(_BatchBase):
                     continue
                 if s['fault']:
                     continue
-                # isolation: the same row processed alone, with pristine copies of the calibration objects
-                k1, r1 = E.samples(fresh_fx(), beads_t, E.samples_t.loc[[s['ID']]])
-                out['evals'] += 1
-                if k1 == 'exc':
+                # isolation: the same row processed alone (in its own child process, see above)
+                ar = alone_res[s['ID']]
+                if ar[0] == 'aborts':
                     V.append(violation('C11/row-differs-from-alone', 'sample/alone-aborts',
-                                       'row %s aborts when processed alone: %r' % (s['ID'], r1)))
+                                       'row %s aborts when processed alone: %s' % (s['ID'], ar[1])))
                     continue
-                a1 = r1.get(s['ID'])
-                if is_err or isinstance(a1, X.ExcelUIException):
+                if is_err or ar[0] == 'rowerr':
                     # a row without a documented fault may still fail (e.g. a degenerate calibration gates every
                     # event out); the property then only demands the same outcome as in its single-row run
-                    if not (is_err and isinstance(a1, X.ExcelUIException) and str(a1) == str(got)):
+                    if not (is_err and ar[0] == 'rowerr' and ar[1] == str(got)):
                         V.append(violation('C11/row-differs-from-alone', 'sample/error-vs-result',
-                                           'row %s: batch gives %r, single-row run gives %r' % (s['ID'], got, a1)))
+                                           'row %s: batch gives %r, single-row run gives %r' % (s['ID'], got, ar[1])))
                     else:
                         bump(out['probes'], 'undocumented_row_error_same_alone')
                     continue
-                alone[s['ID']] = r1[s['ID']]
-                a, bb = fpm.sample_state(r1[s['ID']]), fpm.sample_state(got)
+                alone[s['ID']] = ar[2]
+                a, bb = ar[1], fpm.sample_state(got)
                 df = fpm.diff_fields(a, bb)
                 if df:
                     V.append(violation('C11/row-differs-from-alone', 'sample/' + '+'.join(df),
@@ -408,16 +474,15 @@ class C11Machine(_BatchBase):
                     bump(out['probes'], 'error_rows_checked')
                 elif s['ID'] in alone:
                     # same statistics as in the single-row run
-                    st1 = E.samples_t.loc[[s['ID']]].copy()
-                    k2, r2 = E.call(X.add_samples_stats, st1, {s['ID']: alone[s['ID']]})
+                    k2, st1 = alone[s['ID']]
                     if k2 == 'exc':
-                        V.append(violation('C11/healthy-stats-differ', 'alone-raises', str(r2)[:200]))
+                        V.append(violation('C11/healthy-stats-differ', 'alone-raises', st1))
                         continue
                     for col in new_cols:
-                        if not stat_equal(st.loc[s['ID'], col], st1.loc[s['ID'], col]):
+                        if not stat_equal(st.loc[s['ID'], col], st1.get(col)):
                             V.append(violation('C11/healthy-stats-differ', col.split(' ', 1)[-1] if col not in (
                                 'Analysis Notes', 'Number of Events', 'Acquisition Time (s)') else col,
-                                'row %s: %s = %r in the batch, %r alone' % (s['ID'], col, st.loc[s['ID'], col], st1.loc[s['ID'], col])))
+                                'row %s: %s = %r in the batch, %r alone' % (s['ID'], col, st.loc[s['ID'], col], st1.get(col))))
                             break
             # ---- second pass: the previous OUTPUT table is processed again after a file has disappeared ------------
             if case.get('second_pass') is not None and not V:
@@ -564,6 +629,49 @@ class C10Machine(_BatchBase):
             except Exception:
                 fx0 = fx
                 bump(out['probes'], 'calibration_functions_not_copyable')
+
+            # the hand composition of every compared row is computed in its own child process forked HERE, before the
+            # workflow runs: it starts from the process state the workflow starts from and shares nothing with it
+            def hand_row(s):
+                inst = insts[s['Instrument ID']]
+                mf = copy.deepcopy(fx0.get(s['Beads ID'])) if s['Beads ID'] else None
+                res = {'herr': None}
+                with warnings.catch_warnings():
+                    warnings.simplefilter('ignore')
+                    try:
+                        hand, rep = pipeline_ref.hand_sample(F, E.dk.path(s['File Path']), inst, s['units'], s['Gate Fraction'], mf)
+                    except Exception as e:
+                        res['herr'] = str(e)
+                        return res
+                    res['state'] = fpm.sample_state(hand)
+                    res['shape'] = tuple(hand.shape)
+                    res['acq'] = hand.acquisition_time
+                    res['ch'] = {}
+                    for ch in inst['fl']:
+                        u = s['units'].get(ch)
+                        if u is None:
+                            continue
+                        c = {}
+                        try:
+                            c['hs'], c['nonpos'] = pipeline_ref.hand_stats(F, hand, ch)
+                        except Exception as e:
+                            c['exc'] = '%s: %s' % (type(e).__name__, str(e)[:200])
+                            res['ch'][ch] = c
+                            continue
+                        c['dvolt'] = hand.detector_voltage(ch)
+                        c['amp'] = 'Log' if hand.amplification_type(ch)[0] else 'Linear'
+                        c['hist'] = []
+                        col = np.asarray(hand[:, ch])
+                        for sc, edges, centers, counts in pipeline_ref.hand_hist(F, hand, ch, u):
+                            inside = int(np.sum((col >= edges[0]) & (col <= edges[-1])))
+                            c['hist'].append((sc, np.asarray(centers, dtype=float), np.asarray(counts, dtype=float), inside))
+                        res['ch'][ch] = c
+                return res
+            hand_res = {}
+            for s in exp['samples']:
+                if s.get('fault') is None:
+                    kk, rr = in_forked_child(lambda s=s: hand_row(s))
+                    hand_res[s['ID']] = rr if kk == 'ok' else {'herr': 'hand composition child failed: %s' % rr, 'child_failed': True}
             k, r = E.samples(fx, beads_t)
             out['evals'] += 1
             if k == 'exc':
@@ -590,37 +698,34 @@ class C10Machine(_BatchBase):
                 inst = insts[s['Instrument ID']]
                 uc = units_class(s['units'])
                 dt = exp['files'][s['File Path']].get('datatype', 'I')
-                mf = copy.deepcopy(fx0.get(s['Beads ID'])) if s['Beads ID'] else None
-                with warnings.catch_warnings():
-                    warnings.simplefilter('ignore')
-                    try:
-                        hand, rep = pipeline_ref.hand_sample(F, E.dk.path(s['File Path']), inst, s['units'], s['Gate Fraction'], mf)
-                        herr = None
-                    except Exception as e:
-                        herr = e
+                mf = fx0.get(s['Beads ID']) if s['Beads ID'] else None
+                H = hand_res[s['ID']]
+                if H.get('child_failed'):
+                    raise RuntimeError(H['herr'])
+                herr = H['herr']
                 if isinstance(got, X.ExcelUIException) or herr is not None:
                     # e.g. a degenerate calibration gates every event out: the workflow must then report what the hand
                     # composition raises
-                    if not (isinstance(got, X.ExcelUIException) and herr is not None and str(herr) == str(got)):
+                    if not (isinstance(got, X.ExcelUIException) and herr is not None and herr == str(got)):
                         V.append(violation('C10/row-error', 'sample/%s/%s' % (uc, dt),
                                            'well-formed row %s: workflow gives %r, hand composition %r' % (s['ID'], got, herr)))
                     else:
                         bump(out['probes'], 'row_error_equals_hand_composition_error')
                     continue
-                a, bb = fpm.sample_state(hand), fpm.sample_state(got)
+                a, bb = H['state'], fpm.sample_state(got)
                 df = fpm.diff_fields(a, bb)
                 log.add('sample', s['ID'], sample_digest(got), df)
                 if df:
                     V.append(violation('C10/sample-differs-from-hand', '%s/%s/%s' % (uc, dt, '+'.join(df)),
                                        'row %s (units %s, fraction %s): differs from the hand composition in %s; shapes %s vs %s' % (
-                                           s['ID'], s['units'], s['Gate Fraction'], df, got.shape, hand.shape)))
+                                           s['ID'], s['units'], s['Gate Fraction'], df, got.shape, H['shape'])))
                     continue
                 # statistics
-                if st.loc[s['ID'], 'Number of Events'] != hand.shape[0]:
-                    V.append(violation('C10/stat', 'Number of Events', 'row %s: %r vs %r' % (s['ID'], st.loc[s['ID'], 'Number of Events'], hand.shape[0])))
-                if not stat_equal(st.loc[s['ID'], 'Acquisition Time (s)'], hand.acquisition_time):
+                if st.loc[s['ID'], 'Number of Events'] != H['shape'][0]:
+                    V.append(violation('C10/stat', 'Number of Events', 'row %s: %r vs %r' % (s['ID'], st.loc[s['ID'], 'Number of Events'], H['shape'][0])))
+                if not stat_equal(st.loc[s['ID'], 'Acquisition Time (s)'], H['acq']):
                     V.append(violation('C10/stat', 'Acquisition Time (s)', 'row %s: %r vs %r' % (
-                        s['ID'], st.loc[s['ID'], 'Acquisition Time (s)'], hand.acquisition_time)))
+                        s['ID'], st.loc[s['ID'], 'Acquisition Time (s)'], H['acq'])))
                 note = st.loc[s['ID'], 'Analysis Notes']
                 any_nonpos = False
                 for ch in inst['fl']:
@@ -631,13 +736,11 @@ class C10Machine(_BatchBase):
                             if col in st.columns and not pd.isnull(st.loc[s['ID'], col]):
                                 V.append(violation('C10/stat', suffix + '/no-units', 'row %s: %s filled without units' % (s['ID'], col)))
                         continue
-                    with warnings.catch_warnings():
-                        warnings.simplefilter('ignore')
-                        try:
-                            hs, nonpos = pipeline_ref.hand_stats(F, hand, ch)
-                        except Exception as e:
-                            V.append(violation('C10/raises', 'stats-by-hand/%s' % type(e).__name__, str(e)[:200]))
-                            continue
+                    C = H['ch'][ch]
+                    if 'exc' in C:
+                        V.append(violation('C10/raises', 'stats-by-hand/%s' % C['exc'].split(':')[0], C['exc']))
+                        continue
+                    hs, nonpos = C['hs'], C['nonpos']
                     any_nonpos = any_nonpos or nonpos
                     for suffix, val in hs.items():
                         col = '%s %s' % (ch, suffix)
@@ -649,11 +752,10 @@ class C10Machine(_BatchBase):
                     if not nonpos and ('Geometric statistics for channel %s' % ch) in str(note):
                         V.append(violation('C10/note', 'spurious', 'row %s channel %s: %r' % (s['ID'], ch, note)))
                     dvolt = st.loc[s['ID'], ch + ' Detector Volt.']
-                    if not stat_equal(dvolt, hand.detector_voltage(ch)):
-                        V.append(violation('C10/stat', 'Detector Volt.', 'row %s: %r vs %r' % (s['ID'], dvolt, hand.detector_voltage(ch))))
-                    at = 'Log' if hand.amplification_type(ch)[0] else 'Linear'
-                    if st.loc[s['ID'], ch + ' Amp. Type'] != at:
-                        V.append(violation('C10/stat', 'Amp. Type', 'row %s: %r vs %r' % (s['ID'], st.loc[s['ID'], ch + ' Amp. Type'], at)))
+                    if not stat_equal(dvolt, C['dvolt']):
+                        V.append(violation('C10/stat', 'Detector Volt.', 'row %s: %r vs %r' % (s['ID'], dvolt, C['dvolt'])))
+                    if st.loc[s['ID'], ch + ' Amp. Type'] != C['amp']:
+                        V.append(violation('C10/stat', 'Amp. Type', 'row %s: %r vs %r' % (s['ID'], st.loc[s['ID'], ch + ' Amp. Type'], C['amp'])))
                     # histogram
                     try:
                         cen_row = hist.loc[(s['ID'], ch, 'Bin Centers (%s)' % u)]
@@ -663,17 +765,16 @@ class C10Machine(_BatchBase):
                         continue
                     okh = False
                     why = ''
-                    for sc, edges, centers, counts in pipeline_ref.hand_hist(F, hand, ch, u):
+                    for sc, centers, counts, inside in C['hist']:
                         n = len(counts)
                         gc = np.asarray(cnt_row.values[:n], dtype=float)
                         gcen = np.asarray(cen_row.values[:n], dtype=float)
-                        inside = int(np.sum((np.asarray(hand[:, ch]) >= edges[0]) & (np.asarray(hand[:, ch]) <= edges[-1])))
-                        if np.array_equal(gc, counts.astype(float)) and np.array_equal(gcen, centers, equal_nan=True) and \
+                        if np.array_equal(gc, counts) and np.array_equal(gcen, centers, equal_nan=True) and \
                                 int(gc.sum()) == inside and pd.isnull(cnt_row.values[n:]).all():
                             okh = True
                             break
                         why = 'scale %s: counts equal %s, centers equal %s, sum %s vs events inside %s' % (
-                            sc, np.array_equal(gc, counts.astype(float)), np.array_equal(gcen, centers, equal_nan=True),
+                            sc, np.array_equal(gc, counts), np.array_equal(gcen, centers, equal_nan=True),
                             gc.sum(), inside)
                     if not okh:
                         V.append(violation('C10/hist', '%s' % (u.strip().lower()), 'row %s channel %s: %s' % (s['ID'], ch, why)))
@@ -681,6 +782,7 @@ class C10Machine(_BatchBase):
                 if any_nonpos:
                     bump(out['probes'], 'rows_with_nonpositive_events')
                 bump(out['probes'], 'rows_compared_with_hand_composition')
+                bump(out['probes'], 'hand_compositions_in_forked_children')
                 out['sigs'].add('%s|%s|%s' % (uc, dt, 'mef' if mf is not None and 'mef' in uc else '-'))
             out['sigs'].add('%d/%d|%s|%s' % (len(exp['beads']), len(exp['samples']),
                                              ','.join(units_class(s['units']) for s in exp['samples']),
